@@ -91,6 +91,26 @@ def c13_cases(tier):
                 return "field `f: %s` is declared as `%s`, the rule gives `%s`" % (sdl, m.group(1) if m else "?", rust)
             return None
         yield case, oracle
+    # the other three positions of the rule: operation variables, input-object members, variables / members declared WITH a default value
+    # (a default value does not change the declared type), through both schema formats for the input member
+    import vxbounded
+    for (sdl, rust) in type_exprs(depth if tier != "quick" else 1):
+        dflt = "[]" if sdl.startswith("[") else "1"
+        model = {"inputs": {"In": {"fields": [("plain", sdl), ("dflt", sdl, dflt)]}}, "objects": {"Query": {"fields": [("f", "Int", None, [("i", "In"), ("v", sdl), ("w", sdl)])]}}, "query": "Query"}
+        q = "query Q($i: In, $v: %s, $w: %s = %s) { f(i: $i, v: $v, w: $w) }" % (sdl, sdl, dflt)
+        for (ext, text) in (("graphql", vxbounded.render_sdl(model)), ("json", vxbounded.render_json(model))):
+            case = {"schema": text, "schema_ext": ext, "query": q, "options": {"mode": "cli"}}
+
+            def oracle_in(res, rust=rust, sdl=sdl, ext=ext):
+                if res["exit"] != 0 or not res["out"] or not res["out"].get("ok"):
+                    return None
+                st = _structs(norm(res["out"]["tokens"]))
+                for (sname, member) in (("Variables", "v"), ("Variables", "w"), ("In", "plain"), ("In", "dflt")):
+                    got = (st.get(sname) or {}).get(member, (None, None))[1]
+                    if got != rust:
+                        return "%s.%s declared `%s`%s (%s schema) has the type `%s`, the rule gives `%s`" % (sname, member, sdl, " with a default value" if member in ("w", "dflt") else "", ext, got, rust)
+                return None
+            yield case, oracle_in
 
 
 def c14_cases(tier):
@@ -124,9 +144,11 @@ def c14_cases(tier):
 
 def c16_cases(tier):
     exprs = ["ID", "ID!", "[ID!]!", "[ID]", "[[ID!]]"] if tier == "quick" else [s for (s, _) in type_exprs(3)]
-    for (e, nz) in [(x, n) for x in exprs for n in ("none", "rust")]:
+    # the coercion belongs to the field's type, whatever else is switched on (skip_serializing_none, other-variant, derive lists)
+    optsets = [{"normalization": "none"}, {"normalization": "rust"}, {"skip_serializing_none": True}, {"skip_serializing_none": True, "fragments_other_variant": True, "response_derives": "Debug,Serialize"}]
+    for (e, nz) in [(x, n) for x in exprs for n in optsets]:
         e = e.replace("Int", "ID")
-        case = {"schema": "type Query { f: %s s: String }" % e, "query": "query Q { f s }", "options": {"mode": "cli", "normalization": nz}}
+        case = {"schema": "type Query { f: %s s: String }" % e, "query": "query Q { f s }", "options": dict({"mode": "cli"}, **nz)}
 
         def oracle(res, e=e, nz=nz):
             if res["exit"] != 0 or not res["out"] or not res["out"].get("ok"):
@@ -139,7 +161,7 @@ def c16_cases(tier):
             if "deserialize_with" in re.search(r"((?:#\[[^\]]*\])*)pubs:", t).group(1):
                 return "a non-ID field carries the ID coercion"
             if "deserialize_with" not in attrs:
-                return "ID-typed field `f: %s` carries no coercion (normalization %s; declared type %s)" % (e, nz, ty)
+                return "ID-typed field `f: %s` carries no coercion (options %s; declared type %s)" % (e, nz, ty)
             if "deserialize_id" in attrs and ty != "ID":
                 return "`f: %s` has type %s but helper deserialize_id returns String" % (e, ty)
             if "deserialize_option_id" in attrs and ty != "Option<ID>":
@@ -193,6 +215,12 @@ def c17_more_cases(tier):
         "fragment X on Item { child { ...Y } } fragment Y on Item { child { ...X } } query Q { item { value } }",
         # deep nesting
         "query Q { item { " + "child { " * 40 + "value" + " }" * 40 + " } }",
+        # a spread cycle among fragments on an ABSTRACT type, entered from the selection of an object that implements it / is a member of it
+        "fragment NA on Node { __typename id ...NB } fragment NB on Node { __typename id ...NA } query Q { item { value ...NA } }",
+        "fragment UA on U { __typename ...UB } fragment UB on U { __typename ...UA } query Q { item { value ...UA } }",
+        "fragment NA on Node { __typename id next { __typename ...NB } } fragment NB on Node { __typename ...NA } query Q { item { child { ...NB } } }",
+        # the same cycle below an inline fragment and below a list
+        "fragment NA on Node { __typename id ...NB } fragment NB on Node { __typename id ...NA } query Q { root { __typename ... on Item { items { ...NA } } } }",
     ]
     for q in queries:
         case = {"schema": schema, "query": q, "options": {"mode": "cli"}}
@@ -228,6 +256,32 @@ def c11_cases(tier):
                 pass
             return None
         yield case, oracle
+    # the other name positions: enum values, variables, input-object members, @oneOf members, aliases - the identifier is escaped, the
+    # string on the wire (serde rename / match arm literal) is the GraphQL name itself
+    kw2 = [k for k in kws if k not in ("true", "false")]
+    vals = " ".join(kw2)
+    kw_in = [k for k in kw2 if k != "Self"]       # `self` and `Self` would be one member identifier: the schema author's problem
+    schema = "enum E { %s plain } input I { %s } input O @oneOf { %s } type Query { f(e: E, i: I, o: O): E }" % (vals, " ".join("%s: Int" % k for k in kw_in), " ".join("%s: Int" % k for k in kw_in))
+    case = {"schema": schema, "query": "query Q($e: E, $i: I, $o: O) { f(e: $e, i: $i, o: $o) }", "options": {"mode": "cli"}}
+
+    def oracle_pos(res):
+        if res["exit"] != 0 or not res["out"] or not res["out"].get("ok"):
+            return "generation failed for keyword-named enum values / input members"
+        t = norm(res["out"]["tokens"])
+        ser = dict((w, v) for (v, w) in re.findall(r'E::([A-Za-z0-9_#]+)=>"([^"]*)"', t))
+        de = dict(re.findall(r'"([^"]*)"=>Ok\(E::([A-Za-z0-9_#]+)\)', t))
+        for k in kw2:
+            if k not in ser or k not in de:
+                return "enum value `%s` (a Rust keyword) is not written / recognised under its GraphQL name: Serialize strings %s" % (k, sorted(ser)[:8])
+            if ser[k] != k + "_" or de[k] != k + "_":
+                return "enum value `%s`: variant identifier %s / %s, expected %s_" % (k, ser[k], de[k], k)
+        st = _structs(t).get("I") or {}
+        for k in kw_in:
+            ident = k.lower() + "_"
+            if ident not in st or ('rename="%s"' % k) not in st[ident][0]:
+                return "input member `%s`: identifier `%s` with wire key `%s` expected, struct I has %s" % (k, ident, k, sorted(st)[:6])
+        return None
+    yield case, oracle_pos
 
 
 def c10_cases(tier):
@@ -679,6 +733,8 @@ def c03_cases(tier):
     of a variant (its identifier, or its rename when it has one) is the schema's type name, under every naming option"""
     for x in c13_cases(tier):
         yield x
+    for x in c03_narrowing_cases(tier):
+        yield x
     schema = ("interface Named { name: String } type HTTPEndpoint implements Named { name: String url: String } type rate_limit implements Named { name: String n: Int } "
               "type Plain implements Named { name: String } union Thing = HTTPEndpoint | rate_limit | Plain type Query { named: Named thing: Thing things: [Thing!] }")
     queries = [("query Q { thing { __typename ... on rate_limit { n } ... on HTTPEndpoint { url } } }", {"QThing": ["HTTPEndpoint", "rate_limit", "Plain"]}),
@@ -707,6 +763,33 @@ def c03_cases(tier):
                         return "enum %s is tagged by %s, the member types are %s: a payload whose __typename is a missing name does not select its own variant (`%s`, options %s)" % (name, tags, want[key], q, opts)
                 return None
             yield case, oracle
+
+
+def c03_narrowing_cases(tier):
+    """an object may declare a field it has from an interface with a NARROWER type (non-null where the interface is nullable): a selection on
+    the object is typed by the object's declaration, through both schema formats"""
+    import vxbounded
+    model = {"interfaces": {"Named": {"fields": [("name", "String"), ("tags", "[String]"), ("n", "Int")]}},
+             "objects": {"Person": {"fields": [("name", "String!"), ("tags", "[String!]!"), ("n", "Int")], "implements": ["Named"]},
+                         "Loose": {"fields": [("name", "String"), ("tags", "[String]"), ("n", "Int!")], "implements": ["Named"]},
+                         "Query": {"fields": [("me", "Person"), ("named", "Named"), ("loose", "Loose")]}}, "query": "Query"}
+    want = {"QMe": {"name": "String", "tags": "Vec<String>", "n": "Option<Int>"}, "QLoose": {"name": "Option<String>", "tags": "Option<Vec<Option<String>>>", "n": "Int"},
+            "QNamedOnPerson": {"name": "String", "tags": "Vec<String>"}, "QNamed": {"n": "Option<Int>"}}
+    q = "query Q { me { name tags n } loose { name tags n } named { __typename n ... on Person { name tags } } }"
+    for (ext, text) in (("graphql", vxbounded.render_sdl(model)), ("json", vxbounded.render_json(model))):
+        case = {"schema": text, "schema_ext": ext, "query": q, "options": {"mode": "cli"}}
+
+        def oracle(res, ext=ext):
+            if res["exit"] != 0 or not res["out"] or not res["out"].get("ok"):
+                return "generation failed for a valid operation over a schema whose objects narrow interface fields (%s)" % ext
+            st = _structs(norm(res["out"]["tokens"]))
+            for sname, members in want.items():
+                for m, ty in members.items():
+                    got = (st.get(sname) or {}).get(m, (None, None))[1]
+                    if got != ty:
+                        return "%s.%s has the type `%s`; the object's own declaration gives `%s` (%s schema; the interface declares the field nullable)" % (sname, m, got, ty, ext)
+            return None
+        yield case, oracle
 
 
 def camel_eq(a, b):
@@ -1150,6 +1233,49 @@ def c15_cases(tier):
             yield case, oracle
 
 
+def _strip_nulls(v):
+    if isinstance(v, dict):
+        return {k: _strip_nulls(x) for k, x in v.items() if x is not None}
+    if isinstance(v, list):
+        return [_strip_nulls(x) if isinstance(x, dict) else x for x in v]
+    return v
+
+
+def c15_envelope_cases(tier):
+    """every response body the spec allows parses, and what was parsed is written back unchanged (members of the envelope types; path
+    entries keep their kind: the string "2024" stays a key, the integer 2024 an index)"""
+    bodies = [
+        {"data": {"a": 1}},
+        {"data": None, "errors": [{"message": "m"}]},
+        {"errors": [{"message": "m", "path": ["byYear", "2024", 0, "total", "+1", "-0", "007", "1e3", ""], "locations": [{"line": 1, "column": 2}]}]},
+        {"errors": [{"message": "", "path": [0, "0", 1, "1"], "extensions": {"code": "X", "nested": {"k": [1, "2", None]}}}], "extensions": {"trace": "0"}},
+        {"data": {"x": None}, "errors": [], "extensions": {}},
+        {},
+    ]
+    for b in bodies:
+        case = {"kind": "envelope_roundtrip", "body": json.dumps(b)}
+
+        def oracle(res, b=b):
+            if res["exit"] != 0 or not res["out"]:
+                return "the harness died on the body %s: %s" % (json.dumps(b), res["stderr"][-200:])
+            o = res["out"]
+            if not o.get("ok"):
+                return "a response body the spec allows is refused: %s (%s)" % (json.dumps(b), o.get("error"))
+            if _strip_nulls(o["reserialized"]) != _strip_nulls(b):
+                return "the body %s is written back as %s" % (json.dumps(b), json.dumps(o["reserialized"]))
+            if not o.get("same_after_round_trip"):
+                return "deserialize(serialize(r)) != r for the body %s" % json.dumps(b)
+            return None
+        yield case, oracle
+
+
+def c15_all_cases(tier):
+    for x in c15_cases(tier):
+        yield x
+    for x in c15_envelope_cases(tier):
+        yield x
+
+
 def c17_all_cases(tier):
     for x in c17_cases(tier):
         yield x
@@ -1183,6 +1309,10 @@ def c12_all_cases(tier):
         "fragment V on Item { value link { label target { ...V } } } query Q { item { ...V } }",
         "fragment V on Item { link { target { link { target { ...V } } } } } query Q { item { ...V } }",
         "fragment U on Node { __typename id ... on Item { link { owner { parent { ...U } } } } } query Q { root { ...U } }",
+        # a self-recursive fragment that also spreads a second fragment which spreads it back: every spread of the recursive one is an
+        # indirection, also the one inside the second fragment
+        "fragment Beta on Link { label target { ...Alpha } } fragment Alpha on Item { value child { ...Alpha } link { ...Beta } } query Q { item { ...Alpha } }",
+        "fragment Beta on Link { target { ...Alpha } } fragment Alpha on Item { child { ...Alpha } link { label ...Beta } } query Q { item { value ...Alpha } }",
     ]
     for q in queries:
         case = {"schema": schema, "query": q, "options": {"mode": "cli"}}
@@ -1201,7 +1331,7 @@ def c12_all_cases(tier):
         yield case, oracle
 
 
-FAMILIES = {"C15": c15_cases, "C13": c13_cases, "C03": c03_cases, "C14": c14_cases, "C16": c16_cases, "C17": c17_all_cases, "C11": c11_cases, "C08": c08_cases, "C10": c10_cases, "C06": c06_cases, "C04": c04_cases, "C05": c05_cases, "C12": c12_all_cases, "C09": c09_cases, "C02": c02_cases, "C01": c01_cases}
+FAMILIES = {"C15": c15_all_cases, "C13": c13_cases, "C03": c03_cases, "C14": c14_cases, "C16": c16_cases, "C17": c17_all_cases, "C11": c11_cases, "C08": c08_cases, "C10": c10_cases, "C06": c06_cases, "C04": c04_cases, "C05": c05_cases, "C12": c12_all_cases, "C09": c09_cases, "C02": c02_cases, "C01": c01_cases}
 
 
 EXEC_DIR = os.path.join(VERIF, "replay-exec")
